@@ -462,10 +462,18 @@ func (m *Machine) queryPlain(t *Term) (*Term, bool) {
 	for _, p := range concatParts(t) {
 		switch {
 		case p.IsConst():
-			if strings.ContainsAny(p.S, "%+;") {
+			if strings.Contains(p.S, ";") {
 				return nil, false
 			}
-			out = append(out, p)
+			// escapes are decoded byte-wise; a constant part with complete escapes decodes on its own
+			if n := len(p.S); n >= 1 && p.S[n-1] == '%' || n >= 2 && p.S[n-2] == '%' {
+				return nil, false
+			}
+			d, err := url.QueryUnescape(p.S)
+			if err != nil {
+				return nil, false
+			}
+			out = append(out, mkStr(d))
 		case p.Op == "uf" && p.S == "u_qescape" && len(p.Args) == 1:
 			out = append(out, p.Args[0]) // QueryUnescape(QueryEscape(x)) == x
 		case p.Op == "var" && m.sepFree(p, "%") && m.sepFree(p, "+") && m.sepFree(p, ";"):
